@@ -19,6 +19,8 @@ type snLink struct {
 	s     *Sim
 	name  string // peer / client name
 	addr  simrt.Addr
+	preListen int      // polls while the gateway had not started listening yet
+	held      [][]byte // datagrams held meanwhile (in order)
 	epoch int
 	gw    *simrt.Conn // gateway-side conn of the current session (nil before first datagram)
 	// client side: exactly one of these
@@ -187,6 +189,15 @@ func (l *snLink) deliverC2G(b []byte) {
 	}
 	if l.gw == nil || l.gw.IsClosed() {
 		ls := s.W.Net.Listener(gwAddr)
+		if (ls == nil && s.Plan.Cfg.Gateway && !s.W.Net.EverListened(gwAddr) && l.preListen < 5000) || len(l.held) > 0 {
+			// the gateway is still starting up (its goroutine may be stalled): the world begins when it
+			// listens — hold the datagram instead of losing it
+			l.held = append(l.held, b)
+			if len(l.held) == 1 {
+				l.pollListener()
+			}
+			return
+		}
 		if ls == nil {
 			s.W.Log("link:"+l.name+":c2g", "drop", b, "no-listener", 0)
 			return
@@ -210,6 +221,24 @@ func (l *snLink) deliverC2G(b []byte) {
 		}
 	}
 	l.gw.Deliver(b)
+}
+
+// pollListener delivers the held datagrams, in order, as soon as the gateway listens.
+func (l *snLink) pollListener() {
+	s := l.s
+	l.preListen++
+	s.W.After(time.Millisecond, fmt.Sprintf("sn:%s:c2g:prelisten:%06d", l.name, l.preListen), func() {
+		if s.W.Net.Listener(gwAddr) == nil && !s.W.Net.EverListened(gwAddr) && l.preListen < 5000 {
+			l.pollListener()
+			return
+		}
+		held := l.held
+		l.held = nil
+		l.preListen = 5000 // from now on datagrams go straight through (or are dropped)
+		for _, b := range held {
+			l.deliverC2G(b)
+		}
+	})
 }
 
 // g2c: the gateway wrote datagram b (runs in the gateway's goroutine: only schedules).
